@@ -5,6 +5,9 @@
 //                        | (1 opcode (n..))    NextWriter(opcode); Write(n bytes)..; Close()
 //                        | (2 opcode n)        WriteMessage(opcode, n bytes)
 //                        | (3)                 Conn.Close()
+//                        | (5 acc)             arm a one-shot transport fault: the next transport write accepts acc bytes, then errors
+//                        | (6 0)               the peer sends a Close; the READING goroutine echoes it (default close handler)
+//                        | (7 len)             WritePreparedMessage(Close); opcode 8 in (1 ..)/(2 ..) = Close through the message path
 //                        | (4 len)             the peer sends a Ping (len payload bytes); the READING goroutine
 //                                              answers it through the default ping handler
 //   action = (0 t)       goroutine t starts its next operation
@@ -59,6 +62,10 @@ type vC15Conn struct {
 	maxPend   int
 	readBlock chan bool
 	notify    chan bool
+	faultArmed, faultFired bool // a one-shot transport write fault: the next write accepts faultAcc bytes, then errors
+	faultAcc               int
+	partial                []byte // the bytes of the failed write the transport did accept
+	afterFault             int    // transport writes that were attempted (and delivered) after the fault
 	incoming  chan []byte // frames the peer sends; the reading goroutine gets them from Read
 	rest      []byte
 	idle      int // times the reader came back to Read with nothing to read
@@ -155,7 +162,18 @@ func (c *vC15Conn) releaseOldest() []byte {
 	pw := c.pending[0]
 	c.pending = c.pending[1:]
 	ok := !c.closed
-	if ok {
+	if ok && c.faultArmed && !c.faultFired {
+		c.faultFired = true
+		ok = false
+		n := c.faultAcc
+		if n > len(pw.data) {
+			n = len(pw.data)
+		}
+		c.partial = append([]byte(nil), pw.data[:n]...)
+	} else if ok {
+		if c.faultFired {
+			c.afterFault++
+		}
 		c.delivered = append(c.delivered, pw.data)
 	}
 	c.mu.Unlock()
@@ -263,6 +281,9 @@ func vC15DataBytes(msg, off, n int) []byte {
 	return b
 }
 
+// the peer's Close carries (goroutine, op) in its status code: the default handler echoes only the code
+func vC15PeerCode(t, k int) int { return 3000 + t*40 + k }
+
 // control payload: [close code 0x03e8] tid opidx then filler
 func vC15CtlPayload(opcode, tid, opidx, n int) []byte {
 	b := make([]byte, n)
@@ -344,8 +365,11 @@ func vC15ParseCase(c vSx) (server bool, B int, threads [][]vC15Op, ok bool) {
 				ops = append(ops, op)
 			case o.l[0].i64() == 1 && len(o.l) == 3 && o.l[2].isList():
 				op := vC15Op{kind: 1, opcode: o.l[1].int(), msgIdx: msgs}
-				if op.opcode != 1 && op.opcode != 2 {
+				if op.opcode != 1 && op.opcode != 2 && op.opcode != 8 {
 					return
+				}
+				if op.opcode == 8 && (len(o.l[2].l) != 1 || !o.l[2].l[0].isInt() || o.l[2].l[0].int() < 4 || o.l[2].l[0].int() > B) {
+					return // a Close through NextWriter: one Write that fits the buffer
 				}
 				for _, w := range o.l[2].l {
 					if !w.isInt() || w.int() < 0 || w.int() > 100000 {
@@ -354,20 +378,32 @@ func vC15ParseCase(c vSx) (server bool, B int, threads [][]vC15Op, ok bool) {
 					op.writes = append(op.writes, w.int())
 					op.total += w.int()
 				}
-				msgs++
+				if op.opcode != 8 {
+					msgs++
+				} else {
+					op.n = op.total
+				}
 				ops = append(ops, op)
 			case o.l[0].i64() == 2 && len(o.l) == 3:
 				op := vC15Op{kind: 2, opcode: o.l[1].int(), n: o.l[2].int(), msgIdx: msgs}
-				if (op.opcode != 1 && op.opcode != 2) || op.n < 0 || op.n > 100000 {
+				if (op.opcode != 1 && op.opcode != 2 && op.opcode != 8) || op.n < 0 || op.n > 100000 || (op.opcode == 8 && (op.n < 4 || op.n > 125 || (!server && op.n > B))) {
 					return
 				}
 				op.total = op.n
-				msgs++
+				if op.opcode != 8 {
+					msgs++
+				}
 				ops = append(ops, op)
 			case o.l[0].i64() == 3 && len(o.l) == 1:
 				ops = append(ops, vC15Op{kind: 3})
 			case o.l[0].i64() == 4 && len(o.l) == 2 && o.l[1].isInt() && o.l[1].int() >= 4 && o.l[1].int() <= 125:
 				ops = append(ops, vC15Op{kind: 4, opcode: 10, n: o.l[1].int()})
+			case o.l[0].i64() == 5 && len(o.l) == 2 && o.l[1].isInt() && o.l[1].int() >= 0:
+				ops = append(ops, vC15Op{kind: 5, n: o.l[1].int()})
+			case o.l[0].i64() == 6 && len(o.l) == 2 && o.l[1].isInt():
+				ops = append(ops, vC15Op{kind: 6, opcode: 8, n: 2})
+			case o.l[0].i64() == 7 && len(o.l) == 2 && o.l[1].isInt() && o.l[1].int() >= 4 && o.l[1].int() <= 125:
+				ops = append(ops, vC15Op{kind: 7, opcode: 8, n: o.l[1].int()})
 			default:
 				return
 			}
@@ -378,7 +414,7 @@ func vC15ParseCase(c vSx) (server bool, B int, threads [][]vC15Op, ok bool) {
 	nd := 0
 	for _, ops := range threads {
 		for _, o := range ops {
-			if o.kind == 1 || o.kind == 2 {
+			if o.kind == 1 || o.kind == 2 || o.kind == 7 {
 				nd++
 				break
 			}
@@ -406,6 +442,12 @@ func vC15OpsSx(threads [][]vC15Op) vSx {
 				l = append(l, vL(vZ(2), vI(o.opcode), vI(o.n)))
 			case 4:
 				l = append(l, vL(vZ(4), vI(o.n)))
+			case 5:
+				l = append(l, vL(vZ(5), vI(o.n)))
+			case 6:
+				l = append(l, vL(vZ(6), vZ(0)))
+			case 7:
+				l = append(l, vL(vZ(7), vI(o.n)))
 			default:
 				l = append(l, vL(vZ(3)))
 			}
@@ -463,7 +505,7 @@ func vC15Run(server bool, B int, threads [][]vC15Op, plan vC15Plan) vC15Result {
 	dataT := -1
 	for t, ops := range threads {
 		for _, o := range ops {
-			if o.kind == 1 || o.kind == 2 {
+			if o.kind == 1 || o.kind == 2 || o.kind == 7 {
 				dataT = t
 			}
 		}
@@ -512,14 +554,51 @@ func vC15Run(server bool, B int, threads [][]vC15Op, plan vC15Plan) vC15Result {
 						if err != nil {
 							break
 						}
-						_, err = w.Write(vC15DataBytes(o.msgIdx, off, wn))
+						if o.opcode == 8 {
+							_, err = w.Write(vC15CtlPayload(8, t, k, wn))
+						} else {
+							_, err = w.Write(vC15DataBytes(o.msgIdx, off, wn))
+						}
 						off += wn
 					}
 					if err == nil {
 						err = w.Close()
 					}
 				case 2:
-					err = conn.WriteMessage(o.opcode, vC15DataBytes(o.msgIdx, 0, o.n))
+					if o.opcode == 8 {
+						err = conn.WriteMessage(o.opcode, vC15CtlPayload(8, t, k, o.n))
+					} else {
+						err = conn.WriteMessage(o.opcode, vC15DataBytes(o.msgIdx, 0, o.n))
+					}
+				case 5:
+					tc.mu.Lock()
+					tc.faultArmed, tc.faultAcc = true, o.n
+					tc.mu.Unlock()
+				case 6:
+					// the peer sends a Close; the READING goroutine echoes it through the default close
+					// handler and then stops reading
+					code := vC15PeerCode(t, k)
+					fr := []byte{0x88, 2, byte(code >> 8), byte(code)}
+					if server {
+						key := [4]byte{9, 8, 7, 6}
+						fr = []byte{0x88, 0x82, key[0], key[1], key[2], key[3], byte(code>>8) ^ key[0], byte(code) ^ key[1]}
+					}
+					before := tc.idleCount()
+					tc.incoming <- fr
+					dl := time.Now().Add(3 * time.Second)
+					for tc.idleCount() == before && time.Now().Before(dl) {
+						select {
+						case <-readerDone:
+							dl = time.Now()
+						case <-time.After(100 * time.Microsecond):
+						}
+					}
+				case 7:
+					var pm *PreparedMessage
+					pm, err = NewPreparedMessage(o.opcode, vC15CtlPayload(o.opcode, t, k, o.n))
+					if err == nil {
+						err = conn.WritePreparedMessage(pm)
+					}
 				case 4:
 					// the peer sends a Ping; the READING goroutine answers it through the default
 					// ping handler; the operation ends when the reader is back in Read
@@ -556,6 +635,7 @@ func vC15Run(server bool, B int, threads [][]vC15Op, plan vC15Plan) vC15Result {
 	closeSent := false // a Close frame operation has returned nil
 	closeConnDone := false
 	var lateStart [][2]int // operations started after closeSent
+	var lateFault [][2]int // operations started after a transport write had failed
 	var actions []vSx
 	ctlDuringFrame := false
 	midFrame := false // a data frame has had its first transport write but not its last
@@ -569,7 +649,7 @@ func vC15Run(server bool, B int, threads [][]vC15Op, plan vC15Plan) vC15Result {
 				nActive--
 				results[d.tid] = append(results[d.tid], vC15Code(d.err))
 				o := threads[d.tid][d.op]
-				if o.kind == 0 && o.opcode == CloseMessage && d.err == nil {
+				if (o.kind == 0 || o.kind == 1 || o.kind == 2 || o.kind == 7) && o.opcode == CloseMessage && d.err == nil {
 					closeSent = true
 				}
 				if o.kind == 3 {
@@ -625,6 +705,11 @@ func vC15Run(server bool, B int, threads [][]vC15Op, plan vC15Plan) vC15Result {
 		if closeSent {
 			lateStart = append(lateStart, [2]int{t, k})
 		}
+		tc.mu.Lock()
+		if tc.faultFired {
+			lateFault = append(lateFault, [2]int{t, k})
+		}
+		tc.mu.Unlock()
 		o := threads[t][k]
 		if (o.kind == 0 || o.kind == 4) && midFrame {
 			ctlDuringFrame = true
@@ -768,7 +853,7 @@ func vC15Run(server bool, B int, threads [][]vC15Op, plan vC15Plan) vC15Result {
 	whole := true
 	if problem != "" {
 		trunc := problem == "truncated header" || problem == "truncated payload"
-		if !(trunc && closeConnDone) {
+		if !(trunc && (closeConnDone || tc.faultFired)) {
 			whole = false
 			bad("whole-frames", fmt.Sprintf("received bytes are not whole well-formed frames: %s (%d bytes, %d frames)", problem, len(wire), len(frames)))
 		}
@@ -781,12 +866,13 @@ func vC15Run(server bool, B int, threads [][]vC15Op, plan vC15Plan) vC15Result {
 	var dataOps []vC15Op
 	if dataT >= 0 {
 		for _, o := range threads[dataT] {
-			if o.kind == 1 || o.kind == 2 {
+			if (o.kind == 1 || o.kind == 2) && o.opcode != 8 {
 				dataOps = append(dataOps, o)
 			}
 		}
 	}
 	sawClose := false
+	nClose := 0
 	for i, f := range frames {
 		if !f.hdrOK {
 			obsFrames = append(obsFrames, vL(vI(-1), vI(-1), vZ(0), vZ(0), vZ(0)))
@@ -803,6 +889,11 @@ func vC15Run(server bool, B int, threads [][]vC15Op, plan vC15Plan) vC15Result {
 		if f.opcode >= 8 {
 			tid, k := -1, -1
 			p := f.payload
+			peerEcho := f.opcode == 8 && len(p) == 2
+			if peerEcho {
+				code := int(p[0])<<8 | int(p[1])
+				tid, k = (code-3000)/40, (code-3000)%40
+			}
 			if f.opcode == 8 && len(p) >= 2 {
 				p = p[2:]
 			}
@@ -810,9 +901,14 @@ func vC15Run(server bool, B int, threads [][]vC15Op, plan vC15Plan) vC15Result {
 				tid, k = int(p[0]), int(p[1])
 			}
 			owner = tid
+			if f.opcode == 8 {
+				nClose++
+			}
 			okc := f.complete && tid >= 0 && tid < n && k >= 0 && k < len(threads[tid]) &&
-				(threads[tid][k].kind == 0 || (threads[tid][k].kind == 4 && f.opcode == 10)) &&
-				threads[tid][k].opcode == f.opcode && string(f.payload) == string(vC15CtlPayload(f.opcode, tid, k, threads[tid][k].n))
+				(threads[tid][k].kind == 0 || (threads[tid][k].kind == 4 && f.opcode == 10) || threads[tid][k].kind == 6 ||
+					((threads[tid][k].kind == 1 || threads[tid][k].kind == 2 || threads[tid][k].kind == 7) && f.opcode == 8)) &&
+				threads[tid][k].opcode == f.opcode &&
+				((peerEcho && threads[tid][k].kind == 6) || string(f.payload) == string(vC15CtlPayload(f.opcode, tid, k, threads[tid][k].n)))
 			if !okc {
 				whole = false
 				bad("control-intact", fmt.Sprintf("frame %d: control frame opcode %d with payload %x is not the frame of one WriteControl call", i, f.opcode, f.payload))
@@ -858,7 +954,7 @@ func vC15Run(server bool, B int, threads [][]vC15Op, plan vC15Plan) vC15Result {
 	}
 	for t := 0; t < n; t++ {
 		for k, o := range threads[t] {
-			if o.kind == 4 && k < len(results[t]) {
+			if (o.kind == 4 || o.kind == 6) && k < len(results[t]) {
 				if results[t][k] != 0 {
 					bad("ping-answered", fmt.Sprintf("goroutine %d op %d: the reader did not come back to reading after the Ping", t, k))
 				}
@@ -866,7 +962,7 @@ func vC15Run(server bool, B int, threads [][]vC15Op, plan vC15Plan) vC15Result {
 					results[t][k] = 0
 				} else {
 					results[t][k] = 9
-					if !sawClose && !closeConnDone {
+					if !sawClose && !closeConnDone && !tc.faultFired && o.kind == 4 {
 						// no Close frame, transport open: the pong may only be missing when its lock
 						// wait timed out (writeWait) -- the driver never holds a frame that long
 						bad("ping-answered", fmt.Sprintf("goroutine %d op %d: no Pong with the Ping's payload on the wire", t, k))
@@ -884,7 +980,11 @@ func vC15Run(server bool, B int, threads [][]vC15Op, plan vC15Plan) vC15Result {
 		dm := 0
 		for k, o := range threads[t] {
 			r := results[t][k]
-			switch o.kind {
+			kindc := o.kind
+			if (kindc == 1 || kindc == 2 || kindc == 7) && o.opcode == 8 {
+				kindc = 0 // a Close through the message path / a prepared message: judged like a control write
+			}
+			switch kindc {
 			case 0:
 				cnt := ctlSeen[[2]int{t, k}]
 				if r == 0 && cnt != 1 {
@@ -904,9 +1004,9 @@ func vC15Run(server bool, B int, threads [][]vC15Op, plan vC15Plan) vC15Result {
 			}
 		}
 	}
-	if !sawClose && !closeConnDone && dataT >= 0 && len(results[dataT]) == len(threads[dataT]) {
+	if !sawClose && !closeConnDone && !tc.faultFired && dataT >= 0 && len(results[dataT]) == len(threads[dataT]) {
 		for kk, r := range results[dataT] {
-			if r != 0 {
+			if r != 0 && threads[dataT][kk].kind != 7 {
 				bad("writer-undisturbed", fmt.Sprintf("data message op %d failed with result %d although no Close was sent and the transport is open", kk, r))
 			}
 		}
@@ -914,9 +1014,22 @@ func vC15Run(server bool, B int, threads [][]vC15Op, plan vC15Plan) vC15Result {
 			bad("writer-undisturbed", fmt.Sprintf("%d of %d data messages are completely on the wire", msg, len(dataOps)))
 		}
 	}
+	if nClose > 1 {
+		bad("one-close", fmt.Sprintf("%d Close frames on the wire", nClose))
+	}
+	if tc.afterFault > 0 {
+		bad("after-fault-silence", fmt.Sprintf("%d transport write(s) reached the wire after a transport write had failed", tc.afterFault))
+	}
+	for _, lf := range lateFault {
+		t, k := lf[0], lf[1]
+		kd := threads[t][k].kind
+		if (kd == 0 || kd == 1 || kd == 2 || kd == 7) && k < len(results[t]) && results[t][k] == 0 {
+			bad("after-fault-error", fmt.Sprintf("goroutine %d op %d started after a transport write had failed and returned nil", t, k))
+		}
+	}
 	for _, ls := range lateStart {
 		t, k := ls[0], ls[1]
-		if threads[t][k].kind == 3 || threads[t][k].kind == 4 || k >= len(results[t]) {
+		if threads[t][k].kind == 3 || threads[t][k].kind == 4 || threads[t][k].kind == 5 || threads[t][k].kind == 6 || k >= len(results[t]) {
 			continue
 		}
 		if results[t][k] != 1 {
@@ -944,6 +1057,9 @@ func vC15Owner(chunk []byte, dataT int) int {
 		fs, _ := vC15ParseFrames(chunk)
 		if len(fs) == 1 && fs[0].complete {
 			p := fs[0].payload
+			if fs[0].opcode == 8 && len(p) == 2 {
+				return ((int(p[0])<<8 | int(p[1])) - 3000) / 40 // echo of the peer's Close
+			}
 			if fs[0].opcode == 8 && len(p) >= 2 {
 				p = p[2:]
 			}
@@ -992,7 +1108,7 @@ func vC15Fix(threads [][]vC15Op) [][]vC15Op {
 	for _, ops := range threads {
 		m := 0
 		for k := range ops {
-			if ops[k].kind == 1 || ops[k].kind == 2 {
+			if (ops[k].kind == 1 || ops[k].kind == 2) && ops[k].opcode != 8 {
 				ops[k].msgIdx = m
 				m++
 			}
@@ -1159,6 +1275,84 @@ func TestVerifC15(t *testing.T) {
 							return 1 // the Ping arrives now; its Pong waits for the lock behind the frame
 						}
 					}
+				}
+				if rel {
+					return 0
+				}
+				for _, t := range st {
+					return 1 + t
+				}
+				return -1
+			}))
+		}
+	}
+	// 1d. transport write faults (partial accept then error / full error) at chosen transport writes,
+	// followed by control writes of every kind incl. the default close handler's echo of a peer Close
+	for _, acc := range []int{0, 7, 40} {
+		for nrel := 0; nrel < 3 && !stop(); nrel++ {
+			th := vC15Fix([][]vC15Op{{{kind: 5, n: acc}}, {vC15Ctl(false, 8, 10), vC15Ctl(false, 9, 8)}, {vC15Ctl(false, 10, 8), vC15Ctl(false, 8, 6)}, {{kind: 6, opcode: 8, n: 2}}, {vC15WM(2, 200), vC15WM(1, 5)}})
+			dataT, rels, phase := 4, 0, 0
+			want := nrel
+			record(vC15Run(true, 16, th, func(i int, rel bool, mid bool, st []int) int {
+				if i == 0 {
+					return 1 + dataT
+				}
+				if phase == 0 {
+					if rels < want && rel {
+						rels++
+						return 0
+					}
+					phase = 1
+					return 1 // arm the fault: the next transport write fails
+				}
+				if phase == 1 && rel {
+					phase = 2
+					return 0 // ... this one
+				}
+				for _, t := range st {
+					if t != dataT {
+						return 1 + t // Close, ping, pong, second Close, the peer's Close
+					}
+				}
+				return -1
+			}))
+		}
+	}
+	// 1e. Close through every entry point x role, followed by data / ping / second Close from others
+	for _, server := range []bool{true, false} {
+		for entry := 0; entry < 5 && !stop(); entry++ {
+			var closer []vC15Op
+			switch entry {
+			case 0:
+				closer = []vC15Op{vC15Ctl(false, 8, 12)} // WriteControl(Close)
+			case 1:
+				closer = []vC15Op{{kind: 2, opcode: 8, n: 40, total: 40}} // WriteMessage(CloseMessage): fast path on the server
+				if !server {
+					closer = []vC15Op{{kind: 2, opcode: 8, n: 12, total: 12}} // slow path on the client (must fit one frame)
+				}
+			case 2:
+				closer = []vC15Op{{kind: 1, opcode: 8, n: 12, writes: []int{12}, total: 12}} // NextWriter(CloseMessage)
+			case 3:
+				closer = []vC15Op{{kind: 7, opcode: 8, n: 12}} // WritePreparedMessage(Close)
+			default:
+				closer = []vC15Op{{kind: 6, opcode: 8, n: 2}} // the default close handler's echo
+			}
+			var th [][]vC15Op
+			if entry >= 1 && entry <= 3 {
+				// these entry points belong to the message-writing goroutine
+				th = vC15Fix([][]vC15Op{{vC15Ctl(false, 9, 8), vC15Ctl(false, 8, 6)}, {vC15Ctl(false, 10, 9)}, append(closer, vC15WM(2, 30), vC15WM(1, 5))})
+			} else {
+				th = vC15Fix([][]vC15Op{closer, {vC15Ctl(false, 9, 8), vC15Ctl(false, 8, 6)}, {vC15Ctl(false, 10, 9)}, {vC15WM(2, 30), vC15WM(1, 5)}})
+			}
+			first := 0
+			if entry >= 1 && entry <= 3 {
+				first = 2
+			}
+			started := false
+			record(vC15Run(server, 16, th, func(i int, rel bool, mid bool, st []int) int {
+				if !started {
+					started = true
+					return 1 + first // the Close goes first
 				}
 				if rel {
 					return 0
